@@ -61,6 +61,10 @@ ZOO = [
     'import deal\n\n@deal.pure\ndef f(x=0x' + 'f' * 5000 + '):\n    return x\n\n@deal.pure\ndef g():\n    return f(1)\n',
     'import deal\nBIG = 0x' + 'f' * 5000 + '\n\n@deal.post(lambda r: r < BIG)\ndef f():\n    return 1\n',
     'import deal\n\n@deal.safe\ndef f(x):\n    return x / 0x' + 'f' * 5000 + '\n',
+    # ... and as a returned / asserted value
+    'import deal\n\n@deal.post(lambda r: r > 0)\ndef f():\n    return 0x' + 'f' * 5000 + '\n\ndef g():\n    assert 0x' + 'f' * 5000 + '\n',
+    # findings that come from a stub with several entries: the same order whatever the hash seed of the process
+    'import deal\nimport base64\n\n@deal.raises()\n@deal.has()\ndef f(x):\n    return base64.b32decode(x)\n',
     # a declared source encoding other than UTF-8 (PEP 263)
     {'src': '# -*- coding: latin-1 -*-\nimport deal\n\n@deal.pure\ndef f():\n    print("caf\xe9")\n', 'encoding': 'latin-1'},
 ]
@@ -157,6 +161,7 @@ def monitor(f, r, docs):
             if code not in docs: out.append((f'finding with undocumented code DEL{code:03d}: {e}', None))
             if not (1 <= row <= r['nlines']): out.append((f'row outside the file ({r["nlines"]} lines): {e} [{backend}]', None))
             elif not (0 <= col <= r['lens'][row - 1]): out.append((f'column outside the line (length {r["lens"][row - 1]}): {e} [{backend}]', None))
+    if 'crash' in r.get('display_name', {}): out.append(('the linter raised for a file name that does not exist on the disk (flake8 --stdin-display-name): ' + r['display_name']['crash'], None))
     if 'run_crash' in r: out.append(('Checker.run() raised: ' + r['run_crash'], None))
     elif 'findings' in r['astroid'][0]:
         want = [[e[0], e[1]] for e in r['astroid'][0]['findings']]
@@ -186,6 +191,11 @@ def run(ctx, fr, model_available=True, files=None):
     # the CLI: exit status = printed findings = JSON records = API findings
     for part, o in cli:
         api = sum(len(r['as_cli'].get('findings', [])) for r in o['files'] if not r.get('invalid'))
+        if o.get('json') and o.get('json1') and o['json']['stdout'] != o['json1']['stdout']:
+            a, b = o['json']['stdout'].split('\n'), o['json1']['stdout'].split('\n')
+            k = next((i for i, (x, y) in enumerate(zip(a, b)) if x != y), min(len(a), len(b)))
+            fr.violations.append({'scenario': {'origin': 'cli json, two hash seeds', 'files': [f['origin'] for f in part]}, 'impl': [a[k:k + 2], b[k:k + 2]], 'signature': None,
+                                  'what': f'python -m deal lint --json prints different output under PYTHONHASHSEED=0 and =1; first difference: {a[k][:160] if k < len(a) else None} / {b[k][:160] if k < len(b) else None}'})
         for mode in ('json', 'plain', 'alias'):
             c = o.get(mode)
             if c is None: continue
